@@ -29,6 +29,7 @@ CONSTANTS KeyCfgs,    \* set of [alg, cs, cm, ss, sm]: signing_len / min_mac_len
           MaxAns,     \* answers in a sequence
           Bursts,     \* sizes of unsigned bursts the RFC responder may send
           FaultsOn,   \* BOOLEAN: adversary enabled
+          RcKeys,     \* key configurations for which the RCODE / TSIG-error dimension of answers is explored
           Retries,    \* how often the client may compose (sign) the request again before it is answered
           T0          \* the client's clock (SymTime for the behaviours run through the wrappers)
 
@@ -54,6 +55,13 @@ BodyAr(b) == IF b \in {2, 4} THEN 1 ELSE 0
 Msg(id, f1, f2, b) == [hdr |-> EncU16(id) \o <<f1, f2, 2000 + b>> \o EncU16(BodyAr(b)),
                        body |-> <<1000 + b>>, recs |-> <<>>]
 ExtraRec == MkOther(<<5000>>)
+\* NOERROR, SERVFAIL, NXDOMAIN, REFUSED, NOTAUTH, NOTZONE
+RCodes == {0, 2, 3, 5, 9, 10}
+TErrs == {0, BADSIG, BADKEY, BADTIME, BADTRUNC}
+PlainAnswers == cfg.rc = 0 /\ cfg.terr = 0
+\* RFC 8945 5.2.3 / 5.3.2 error answers as the client reads them: RCODE NOTAUTH
+\* with TSIG error BADKEY / BADSIG (unsigned errors) or BADTIME
+ErrShape == cfg.rc = NOTAUTH /\ cfg.terr \in {BADSIG, BADKEY, BADTIME}
 
 NewFull == PseudoFull(Len(macs) + 1, cfg.kc.alg)
 Abs(x) == IF x < 0 THEN -x ELSE x
@@ -93,8 +101,13 @@ ExpectAfter(kind, side, first, uns) ==
 
 --------------------------------------------------------------------------
 Init ==
-  /\ cfg \in {c \in [kc : KeyCfgs, mode : Modes, server : Servers, clk : ClockCfgs, reqb : {1, 2}] :
-                /\ (c.clk # <<0, 0>> => c.reqb = 1)}
+  /\ cfg \in {c \in [kc : KeyCfgs, mode : Modes, server : Servers, clk : ClockCfgs, reqb : {1, 2},
+                       rc : RCodes, terr : TErrs] :
+                /\ (c.clk # <<0, 0>> => c.reqb = 1)
+                \* the RCODE of the answers and - for the independent responder, the
+                \* library's signer always writes 0 - the TSIG error field of its signed answers
+                /\ (c.server = "impl" => c.terr = 0)
+                /\ (<<c.rc, c.terr>> # <<0, 0>> => c.kc \in RcKeys /\ c.reqb = 1)}
   /\ pc = "c_req" /\ net = <<>> /\ pre = Msg(0, 0, 0, 1) /\ fault = "none"
   /\ cli = [ctx |-> <<>>, first |-> TRUE, unsigned |-> 0]
   /\ srv = [ctx |-> <<>>, first |-> TRUE]
@@ -126,7 +139,7 @@ ClientRequest ==
 \* datagram transport does on a timeout: new message ID).  The new transaction
 \* replaces the pending one: answers are verified against the latest request.
 ClientRecompose ==
-  /\ pc = "net1" /\ fault = "none" /\ g.composed <= Retries
+  /\ pc = "net1" /\ fault = "none" /\ g.composed <= Retries /\ PlainAnswers
   /\ LET m == Msg(ReqId + g.composed, 0, 0, cfg.reqb)
          r == ClientRequestStep(CKey, m, T0, Fudge, macs, NewFull)
      IN /\ macs' = r.tbl
@@ -142,7 +155,7 @@ ClientRecompose ==
 --------------------------------------------------------------------------
 (* The adversary: one action on the signed message in flight *)
 
-CanTamper == /\ FaultsOn /\ cfg.clk = <<0, 0>> /\ fault = "none"
+CanTamper == /\ FaultsOn /\ cfg.clk = <<0, 0>> /\ fault = "none" /\ PlainAnswers
              /\ pc \in {"net1", "net2"} /\ net # <<>> /\ Head(net).rep = 1
              /\ FromMessage(Head(net).msg) = "Found"
 Side == IF pc = "net1" THEN "srv" ELSE "cli"
@@ -257,7 +270,7 @@ ServerErrorResponse ==
   /\ UNCHANGED <<cfg, fault, cli, srv, rfc, nans>>
 
 AnsBody == IF nans % 2 = 0 THEN 3 ELSE 4
-AnsMsg == Msg(HdrId(g.reqv.hdr), 128, 0, AnsBody)
+AnsMsg == Msg(HdrId(g.reqv.hdr), 128, cfg.rc, AnsBody)
 CanAnswer == pc = "s_ans" /\ nans < (IF cfg.mode = "txn" THEN 1 ELSE MaxAns)
 
 \* ServerTransaction::answer / ServerSequence::answer
@@ -274,7 +287,7 @@ ServerAnswer ==
         /\ net' = <<[msg |-> r.msg, rep |-> 1]>>
         /\ pre' = m
         /\ g' = [g EXCEPT !.layout = @ /\ r.data = rfcdata, !.smac = r.mac]
-        /\ Log([op |-> "s_answer", b |-> AnsBody, now |-> NowS, fudge |-> Fudge],
+        /\ Log([op |-> "s_answer", b |-> AnsBody, rc |-> cfg.rc, now |-> NowS, fudge |-> Fudge],
                [res |-> "Ok", mac |-> r.j, n |-> Len(r.mac)])
   /\ pc' = "net2" /\ nans' = nans + 1
   /\ UNCHANGED <<cfg, fault, cli, rfc>>
@@ -283,13 +296,15 @@ ServerAnswer ==
 RfcAnswer ==
   /\ CanAnswer /\ cfg.server = "rfc"
   /\ LET m == AnsMsg
-         r == RfcSignStep(SKey, rfc, m, NowS, Fudge, macs, NewFull)
+         other == IF cfg.terr = BADTIME THEN EncU48(NowS) ELSE <<>>
+         r == RfcSignStepE(SKey, rfc, m, NowS, Fudge, cfg.terr, other, macs, NewFull)
      IN /\ macs' = r.tbl
         /\ rfc' = r.rs
         /\ net' = <<[msg |-> r.msg, rep |-> 1]>>
         /\ pre' = m
         /\ g' = [g EXCEPT !.run = 0]
-        /\ Log([op |-> "rfc_answer", b |-> AnsBody, now |-> NowS, fudge |-> Fudge, mac |-> r.j, n |-> Len(r.mac)],
+        /\ Log([op |-> "rfc_answer", b |-> AnsBody, rc |-> cfg.rc, err |-> cfg.terr, other |-> other,
+                now |-> NowS, fudge |-> Fudge, mac |-> r.j, n |-> Len(r.mac)],
                [res |-> "Ok"])
   /\ pc' = "net2" /\ nans' = nans + 1
   /\ UNCHANGED <<cfg, fault, cli, srv>>
@@ -303,7 +318,7 @@ RfcUnsigned ==
        /\ net' = <<[msg |-> AnsMsg, rep |-> n]>>
        /\ g' = [g EXCEPT !.run = @ + n]
        /\ fault' = IF g.run + n > 99 /\ fault = "none" THEN "LongRun" ELSE fault
-       /\ Log([op |-> "rfc_unsigned", b |-> AnsBody, n |-> n], [res |-> "Ok"])
+       /\ Log([op |-> "rfc_unsigned", b |-> AnsBody, rc |-> cfg.rc, n |-> n], [res |-> "Ok"])
   /\ pre' = AnsMsg
   /\ pc' = "net2" /\ nans' = nans + 1
   /\ UNCHANGED <<cfg, cli, srv, macs>>
@@ -354,7 +369,7 @@ ClocksOk == Abs(Skew) <= Fudge /\ Abs(Drift - Skew) <= Fudge
 Honest == fault \in {"none", "RewriteId", "RecaseKey", "EndsUnsigned"}
 EndsUnsigned == pc = "done" /\ rfc.pending # <<>>
 HonestVerifies ==
-  (Honest /\ PolicyOk /\ ClocksOk /\ g.run <= 99 /\ ~EndsUnsigned) => ~g.rejected
+  (Honest /\ PolicyOk /\ ClocksOk /\ g.run <= 99 /\ ~EndsUnsigned /\ ~ErrShape) => ~g.rejected
 
 \* the verification that follows an adversary action returns the assigned error
 LastOp == hist[Len(hist)].op
@@ -368,7 +383,19 @@ ClocksRejected ==
   /\ (fault = "none" /\ PolicyOk /\ Abs(Skew) > Fudge /\ pc \in {"s_err", "net2e"}) => g.err = "BADTIME"
   /\ (fault = "none" /\ PolicyOk /\ Abs(Skew) > Fudge /\ pc = "done") => g.got = "ServerBadTime"
   /\ (fault = "none" /\ PolicyOk /\ Abs(Skew) <= Fudge /\ Abs(Drift - Skew) > Fudge
-        /\ nans = 1 /\ hist # <<>> /\ LastOp = "c_answer") => g.got = "BadTime"
+        /\ nans = 1 /\ hist # <<>> /\ LastOp = "c_answer" /\ ~ErrShape) => g.got = "BadTime"
+\* Whenever the MAC of an answer verifies the time window is enforced, whatever
+\* the RCODE and the TSIG error field say - except for the error answers RFC 8945
+\* defines: NOTAUTH + BADKEY / BADSIG (reported as such) and NOTAUTH + BADTIME
+\* (5.2.3: Time Signed is the client's, the server's clock is in other-data).
+FirstAnswerChecked == fault = "none" /\ PolicyOk /\ Abs(Skew) <= Fudge /\ nans = 1
+                      /\ hist # <<>> /\ LastOp = "c_answer"
+WindowEnforced ==
+  /\ (FirstAnswerChecked /\ ~ErrShape) =>
+        g.got = (IF Abs(Drift - Skew) > Fudge THEN "BadTime" ELSE "Ok")
+  /\ (FirstAnswerChecked /\ ErrShape) =>
+        g.got = (CASE cfg.terr = BADKEY -> "ServerBadKey" [] cfg.terr = BADSIG -> "ServerBadSig"
+                   [] OTHER -> "ServerBadTime")
 PolicyRejected ==
   /\ (fault = "none" /\ cfg.kc.cs < cfg.kc.sm /\ pc \notin {"c_req", "net1"}) => g.err = "BADTRUNC"
   /\ (fault = "none" /\ ClocksOk /\ cfg.kc.cs >= cfg.kc.sm /\ cfg.kc.ss < cfg.kc.cm /\ nans = 1
@@ -380,11 +407,11 @@ LayoutFollowsRfc == g.layout
 UnsignedBound ==
   /\ cli.unsigned <= 99
   /\ (Len(hist) >= 2 /\ LastOp = "c_answer" /\ PrevOp.op = "rfc_unsigned" /\ g.run > 99
-        /\ PolicyOk /\ ClocksOk /\ fault = "LongRun")
+        /\ PolicyOk /\ ClocksOk /\ ~ErrShape /\ fault = "LongRun")
        => (g.got = "TooManyUnsigned" /\ (PrevOp.n = 100 => outs[Len(outs)].left = 0))
   /\ (Len(hist) >= 2 /\ LastOp = "c_answer" /\ PrevOp.op = "rfc_unsigned" /\ g.run <= 99
-        /\ fault = "none" /\ PolicyOk /\ ClocksOk) => g.got = "Ok"
-  /\ (Honest /\ EndsUnsigned /\ PolicyOk /\ ClocksOk) => g.got = "TooManyUnsigned"
+        /\ fault = "none" /\ PolicyOk /\ ClocksOk /\ ~ErrShape) => g.got = "Ok"
+  /\ (Honest /\ EndsUnsigned /\ PolicyOk /\ ClocksOk /\ ~ErrShape) => g.got = "TooManyUnsigned"
 
 --------------------------------------------------------------------------
 (* Constant values for the .cfg files (records / tuples cannot be written there) *)
@@ -406,6 +433,9 @@ ClocksQuick == { <<0, 0>>, <<300, 0>>, <<-300, 0>>, <<301, 0>>, <<-301, 0>>,
 ClocksThorough == ClocksQuick \cup { <<299, -1>>, <<150, -150>>, <<150, -151>>, <<-151, 150>>,
                                      <<1000, 0>>, <<0, 300>>, <<0, -300>>, <<-999999, 0>> }
 ClocksNone == { <<0, 0>> }
+RcKeysQuick == { KC("sha256", 32, 32, 32, 32) }
+RcKeysThorough == { KC("sha256", 32, 32, 32, 32), KC("sha256", 16, 16, 16, 16), KC("sha1", 10, 10, 20, 10) }
+RcKeysNone == {}
 
 --------------------------------------------------------------------------
 (* S->I: one case per finished behaviour *)
